@@ -19,6 +19,9 @@ ASSUMPTIONS = [
     "sets (clause 4) is asserted without a limit",
     "provisional stream: projects with DirectoryNode producers / consumers (generator impl.prov_api, no task generators) go through the same twin "
     "experiment with the implementation-only oracle (the static engine model has no directory nodes; those are C18's model)",
+    "task-object stream: PTask OBJECTS (TaskWithoutPath / Task instances with PathNodes and Mark objects, created once by a plain module) are "
+    "handed to build(tasks=[...]) and reused by the dry run and the build of one interpreter; compared with the build alone over fresh objects in "
+    "its own interpreter; implementation-only oracle (clauses 2-4; the file snapshot around the dry run is taken by the other streams)",
     "in-process stream: dry run and build in ONE interpreter are compared with the build alone in its own process; restricted to prefix-style task "
     "functions (with pytask marks) because functions declared with @task are not collected by a second build of one interpreter at all "
     "(DESIGN §6 F7, in C15's scope)",
@@ -61,7 +64,8 @@ def oracle(hist, res, id_of=engine.name_to_id):
     # 2. no task function executed by the dry run
     if d["log"]:
         bad.append(("nolog", f"the dry run executed task bodies: {d['log'][:6]}", None))
-    bad += relational("", cfg, tw.get("spec"), d, a, b, id_of)
+    bad += relational("task objects reused by both builds of one interpreter: " if hist.get("stream") == "objects" else "",
+                      cfg, tw.get("spec"), d, a, b, id_of)
     if tw.get("inproc"):
         # the same two builds in ONE interpreter, compared with the build alone (own process) from the same state
         di, ai = tw["inproc"]["dry"]["obs"], tw["inproc"]["a"]["obs"]
@@ -119,6 +123,15 @@ def f20_witness():
     return {"tag": "corpus-F20", "spec": spec, "steps": [["build", {}], ["write", 101, 777]], "twin": {"force": True}}
 
 
+def f34_witness():
+    """a -> b -> c as TaskWithoutPath OBJECTS reused by a dry run and the following build of one interpreter (finding F34, fixed f6fd08b)"""
+    spec = {"tasks": [{"id": 0, "module": 0, "deps": [100], "prods": [101], "after": [], "marks": [], "beh": "ok", "style": "default", "objkind": "nopath"},
+                      {"id": 1, "module": 0, "deps": [101], "prods": [102], "after": [], "marks": [], "beh": "ok", "style": "default", "objkind": "nopath"},
+                      {"id": 2, "module": 0, "deps": [102], "prods": [103], "after": [], "marks": ["try_last"], "beh": "ok", "style": "default", "objkind": "task"}],
+            "versions": {"0": 0}, "inputs": {"100": 5}}
+    return {"tag": "corpus-F34", "stream": "objects", "spec": spec, "steps": [], "twin": {}}
+
+
 def f19_witness(force=True):
     spec = {"tasks": [{"id": 0, "module": 0, "deps": [100], "prods": [101], "after": [], "marks": ["persist"], "beh": "ok", "style": "default"}],
             "versions": {"0": 0}, "inputs": {"100": 5}}
@@ -126,7 +139,7 @@ def f19_witness(force=True):
 
 
 def corpus():
-    hs = [f19_witness(True), f19_witness(False), f20_witness()]
+    hs = [f19_witness(True), f19_witness(False), f20_witness(), f34_witness()]
     # persist task in the middle of a chain, changed module, downstream consumer
     chain = {"tasks": [
         {"id": 0, "module": 0, "deps": [100], "prods": [101], "after": [], "marks": [], "beh": "ok", "style": "default"},
@@ -191,7 +204,35 @@ def histories(ctx):
         hs.append(h)
     hs += [inproc_history(rng) for _ in range(ctx.scale(12, 120))]
     hs += [prov_history(rng) for _ in range(ctx.scale(22, 300))]
+    hs += [obj_history(rng) for _ in range(ctx.scale(10, 120))]
     return hs
+
+
+def obj_history(rng):
+    """PTask OBJECTS (TaskWithoutPath / Task instances with PathNodes and Mark objects) handed to build(tasks=[...]) and REUSED by the
+    dry run and the build of one interpreter"""
+    spec = engine.gen_spec(rng, nt=(2, 6), after_p=0.0, prodless_p=0.05, nomods=(1, 1), styles=("default",),
+                           marks=(("skipif_false", 0.2), ("persist", 0.15), ("try_first", 0.2), ("try_last", 0.15), ("skip", 0.04)),
+                           behs=("ok", "ok", "ok", "ok", "ok", "ok", "early"))
+    for t in spec["tasks"]:
+        t["objkind"] = rng.choice(["nopath", "nopath", "task"])
+    ins = [int(k) for k in spec["inputs"]]
+    prods = [p for t in spec["tasks"] for p in t["prods"]]
+    steps = []
+    for _ in range(rng.choice([0, 0, 1, 1, 2])):
+        steps.append(["build", dict(rng.choice([{}, {}, {"force": True}, {"k": "task_t00x"}]))])
+        for _ in range(rng.choice([0, 1, 1, 2])):
+            k = rng.random()
+            if k < 0.5:
+                steps.append(["write", rng.choice(ins), rng.randint(100, 999)])
+            elif k < 0.65:
+                steps.append(["touch", rng.choice(ins + prods)])
+            elif k < 0.8 and prods:
+                steps.append(["write", rng.choice(prods), rng.randint(1000, 9999)])
+            elif prods:
+                steps.append(["delete", rng.choice(prods)])
+    return {"tag": "objects", "stream": "objects", "spec": spec, "steps": steps,
+            "twin": dict(rng.choice([{}, {}, {}, {"force": True}, {"k": "not task_t00x"}, {"maxfail": 1}]))}
 
 
 def inproc_history(rng):
@@ -319,6 +360,8 @@ def campaign(ctx, hs, nservers=None):
             i, h = args
             if h.get("stream") == "prov":
                 return dryrun.run_prov_twin(pool.pick(i), h)
+            if h.get("stream") == "objects":
+                return dryrun.run_obj_twin(pool.pick(i), h)
             return dryrun.run_twin(pool.pick(i), h)
         with ThreadPoolExecutor(max_workers=nservers) as ex:
             results = list(ex.map(one, enumerate(hs)))
@@ -327,8 +370,8 @@ def campaign(ctx, hs, nservers=None):
     drv = ctx.driver() if ctx.use_model else None
     for h, res in zip(hs, results):
         tw = res["twin"]
-        prov = h.get("stream") == "prov"
-        ctx.dist["stream=" + ("provisional" if prov else "in-process+static" if tw.get("inproc") else "static")] += 1
+        prov = h.get("stream") in ("prov", "objects")          # implementation-only streams
+        ctx.dist["stream=" + ("task-objects (in-process)" if h.get("stream") == "objects" else "provisional" if prov else "in-process+static" if tw.get("inproc") else "static")] += 1
         d, a = tw["dry"]["obs"], tw["a"]["obs"]
         dout = engine.outcomes(d) if not d.get("raised") else {}
         announced = [t for t, o in dout.items() if o == "WOULD_BE_EXECUTED"]
@@ -369,7 +412,8 @@ def run(ctx):
                 "state (plain, force, -k, -m, combinations, max_failures 1/2 ± force); corpus (F19 / F20 witnesses, persist chains) and a systematic family "
                 "(marker on the middle task of a chain × 10 previous states × 5 configurations) first; in-process stream: prefix-style task functions with "
                 "pytask marks, the two builds additionally in ONE interpreter; provisional stream: DirectoryNode producers / consumers (fresh, built, "
-                "producer-only / consumer-only re-runs, files dropped in or removed by hand), implementation-only oracle; non-trivial = the dry run announced "
+                "producer-only / consumer-only re-runs, files dropped in or removed by hand), implementation-only oracle; task-object stream: hand-built "
+                "TaskWithoutPath / Task objects with marks, reused by dry run and build in one interpreter via build(tasks=[...]); non-trivial = the dry run announced "
                 "≥1 task and the following real build executed ≥1 task; distinct by canonical (spec, prefix steps, twin configuration)")
     campaign(ctx, histories(ctx))
     # self-test of the oracle: the F20 witness (corpus) must still be flagged — or have been repaired
